@@ -21,6 +21,7 @@ def build(policy):
     s = core.sdn()
     popped = policy.endswith("+pop")
     renamed = policy.endswith("+ren")
+    refused = policy.endswith("+refused")
     policy = policy.split("+")[0]
     s.namespace_manager.default = policy
     ids = itertools.count()
@@ -81,6 +82,25 @@ def build(policy):
                 elif el.name == "a":
                     el.name = "tmp_a"
                     el.name = "a"
+    if refused:
+        # a history of refused adds: in every scope an element whose name is taken while its identifier ("zz") is free,
+        # and one whose identifier is taken (in another letter case) while its name is free; none of them may be found
+        # afterwards, under any key
+        for make, taken_id in ((lambda **kw: n.create_library(**kw), la["EDIF.identifier"]),
+                               (lambda **kw: la.create_definition(**kw), da["EDIF.identifier"]),
+                               (lambda **kw: da.create_port(**kw), da.ports[0]["EDIF.identifier"]),
+                               (lambda **kw: da.create_cable(**kw), da.cables[0]["EDIF.identifier"]),
+                               (lambda **kw: da.create_child(reference=leaf, **kw), da.children[0]["EDIF.identifier"])):
+            for props in ({".NAME": "a", "EDIF.identifier": "zz", "k": "v"}, {".NAME": "zz_free", "EDIF.identifier": taken_id.swapcase(), "k": "v"}):
+                try:
+                    el = make(properties=props)
+                    # accepted (the default policy does not index identifiers): take it out again
+                    {"Library": lambda: n.remove_library(el), "Definition": lambda: la.remove_definition(el), "Port": lambda: da.remove_port(el),
+                     "Cable": lambda: da.remove_cable(el), "Instance": lambda: da.remove_child(el)}[type(el).__name__]()
+                except ValueError:
+                    pass
+                gone.append(props["EDIF.identifier"])
+        gone += ["zz_free"]
     mid = tagit(lab.create_definition(name="a"), "v")
     mid.create_child(name="a", reference=da)
     mid.create_child(name="ab", reference=da)
@@ -306,7 +326,7 @@ ROOTS = ("netlist", "library", "definition", "instance", "port", "cable", "inner
 
 def cases(tier):
     out = []
-    for policy in ("DEFAULT", "EDIF", "DEFAULT+pop", "EDIF+pop", "DEFAULT+ren", "EDIF+ren"):
+    for policy in ("DEFAULT", "EDIF", "DEFAULT+pop", "EDIF+pop", "DEFAULT+ren", "EDIF+ren", "DEFAULT+refused", "EDIF+refused"):
         for fname in FUNCS:
             for rname in ROOTS:
                 for lookup_on in (True, False, "again"):
